@@ -472,8 +472,8 @@ class _ProxiedValue:
     def __hash__(self):
         return hash(self._v())
 
-    def keys(self):
-        return self._v().keys()
+    def __getattr__(self, name):
+        return getattr(object.__getattribute__(self, '_value'), name)     # keys(), items(), get(), ...
 
     def __repr__(self):
         return 'proxy(%r)' % (self._v(),)
